@@ -98,6 +98,20 @@ def check_enums(ctx, w, thorough):
         ph = S.P_TYPE_TABLE.get(mach, 'ENUM_P_TYPE_BASE')
         elfconf.check_enum_field(ctx, w, 'Elf_Shdr', 'sh_type', sh, machine=mach, label='@' + mach)
         elfconf.check_enum_field(ctx, w, 'Elf_Phdr', 'p_type', ph, machine=mach, label='@' + mach)
+    # the OS ABI may add OS-specific names but never takes the processor's names away: DT/SHT/PT_LOOS..HIOS and LOPROC..HIPROC are disjoint
+    # ranges, decided separately (gABI; binutils get_segment_type / get_section_type_name).  Configurations from the tree: every OS ABI name
+    # the struct factory mentions, plus two it does not.
+    osabis = sorted(set(n.value for n in ast.walk(w.model.tree('elf/structs.py')) if isinstance(n, ast.Constant) and isinstance(n.value, str) and
+                        n.value.startswith('ELFOSABI_')) | {'ELFOSABI_LINUX', 'ELFOSABI_OPENBSD'})
+    for mach in elfconf.SWITCH_MACHINES:
+        for sname, field in (('Elf_Shdr', 'sh_type'), ('Elf_Phdr', 'p_type')):
+            ref = elfconf.enum_of(w, elfconf.structs_for(w, True, 64, machine=mach, e_type='ET_EXEC', osabi='ELFOSABI_SYSV'), sname, field)
+            for osabi in osabis:
+                got = elfconf.enum_of(w, elfconf.structs_for(w, True, 64, machine=mach, e_type='ET_EXEC', osabi=osabi), sname, field)
+                lost = sorted(k for k, v in (ref[2] if ref else {}).items() if not got or got[2].get(k) != v)
+                ctx.ob('L-ENUM', 'elf/structs.py:ELFStructs.%s' % sname, '%s.%s@%s,%s keeps the names of %s' % (sname, field, mach, osabi, mach), ref is not None and not lost,
+                       got=lost[:4], msg='under this OS ABI the field loses names it has for the same machine under ELFOSABI_SYSV: a processor-specific code '
+                                         'of such a file is reported as a raw integer')
     # machine-prefixed names only in their own table
     env = w.interp.module_env('elf/enums.py').vars
     for fam, pref in (('ENUM_SH_TYPE_', 'SHT_'), ('ENUM_P_TYPE_', 'PT_')):
